@@ -310,4 +310,10 @@ theorem randAddr_contains {s : Subnet} {d ip : Nat} (hwf : s.wf) (h : randAddr s
     simp
   · cases h
 
+/-- a successful `processBdReq`, with the case of the subnet override that produced the final heap -/
+theorem processBdReq_cases {cfg : Cfg} {req : Req} {ext : Ext} {hf : Heap} (h : processBdReq cfg req ext = .ok hf) :
+    ∃ h0, preStage cfg req ext = .ok h0 ∧ Pre req (selected4 req ext) h0 ∧ SubRes cfg req ext h0 hf := by
+  obtain ⟨h0, hp, hpre, rfl⟩ := processBdReq_ok h
+  exact ⟨h0, hp, hpre, subnetOverride_cases cfg req ext h0⟩
+
 end CJ.Registrar
